@@ -207,6 +207,26 @@ def rule_c(ctx: Ctx) -> None:
            key='XsdGlobals.check|complex-restriction')
     ok = 'redefine' in got
     ctx.ob(rule, 'XsdGlobals.check: redefined groups are tested as restrictions of the group they redefine', f.loc(), ok, '', key='XsdGlobals.check|redefine')
+    # the only exemption is a redefinition that refers to itself (an extension): the predicate ranges over the particles of the new group, and
+    # over nothing that also holds the redefined original (XsdGroup.iter_components walks into `self.redefine`, a copy with the same name)
+    if ok:
+        n, gs = got['redefine']
+        exempt = []
+        # definitions the test may be spread over (a local holding the predicate)
+        srcs = [t for t, lab in gs if 'is_restriction(group.redefine)' in t]
+        names = {x.id for t in srcs for x in ast.walk(ast.parse(t, mode='eval')) if isinstance(x, ast.Name)}
+        exprs = [ast.parse(t, mode='eval').body for t in srcs]
+        for x in walk_no_nested(f.node):
+            if isinstance(x, ast.Assign) and len(x.targets) == 1 and isinstance(x.targets[0], ast.Name) and x.targets[0].id in names:
+                exprs.append(x.value)
+        gens = [y for e in exprs for y in ast.walk(e) if isinstance(y, (ast.GeneratorExp, ast.ListComp)) and 'group.name' in text(y)]
+        walks_redefine = 'self.redefine' in text(ctx.idx.method('xmlschema.validators.groups.XsdGroup', 'iter_components').node)
+        good = bool(gens) and all(text(gn.generators[0].iter) in ('group', 'group._group', 'iter(group)') for gn in gens)
+        bad_iter = [text(gn.generators[0].iter) for gn in gens if text(gn.generators[0].iter) not in ('group', 'group._group', 'iter(group)')]
+        ctx.ob(rule, 'XsdGlobals.check: the self-reference exemption of a redefined group looks at the particles of the new group only', f.loc(n.ast), good,
+               '' if good else f'the predicate ranges over `{bad_iter[0] if bad_iter else "?"}`' + (', and XsdGroup.iter_components also yields the components of `group.redefine` - the copy '
+               'of the original group, which has the same name: the exemption always holds and no redefinition by restriction is checked' if walks_redefine else ''),
+               key='XsdGlobals.check|redefine-exemption')
     ok = 'open-content' in got
     ctx.ob(rule, 'XsdGlobals.check: open content added by a restriction is tested against the base content', f.loc(), ok, '', key='XsdGlobals.check|open-content')
     # the filter on schemas does not drop types: x.schema in schemas
@@ -273,6 +293,28 @@ def rule_d(ctx: Ctx) -> None:
                     ('wildcard', 'an attribute wildcard that is not a restriction of the base wildcard is refused')):
         ctx.ob(rule, f'restriction of attributes: {what}', f.loc(found[k].ast) if k in found else f.loc(), k in found,
                '' if k in found else 'no parse_error with this path condition', key=f'attributes._parse|{k}')
+    # sibling branch: the redefinition of an attribute group without a self reference is a restriction too and has the same three refusals
+    red = {}
+    for n, c in pe:
+        gs = guards(ctx, f, n)
+        T = {t for t, lab in gs if lab == 'T'}
+        if not any('self.redefine is not None' in t and 'attribute_group_refs' in t for t in T):
+            continue
+        if any('.use' in t and 'attributes[name].use' in t for t in T):
+            red['use'] = n
+        if any('.fixed is not None' in t and '.fixed is None' in t for t in T):
+            red['fixed-dropped'] = n
+        if any('normalize' in t and '.fixed' in t for t in T):
+            red['fixed-changed'] = n
+        if any("is_derived(attr.type, 'restriction')" in t and t.count('not ') >= 1 for t in T):
+            red['type'] = n
+    for k, what, eg in (('use', 'a weakened use is refused', ''), ('fixed-dropped', 'a dropped fixed value is refused', ''),
+                        ('fixed-changed', 'a changed fixed value is refused', 'AG {f fixed="x"} redefined as {f fixed="y"} is accepted and <root f="y"/> becomes valid'),
+                        ('type', 'an attribute type that is not a restriction of the redefined attribute type is refused',
+                         'AG {a: xs:int} redefined as {a: xs:string} is accepted and <root a="zz"/> becomes valid')):
+        ctx.ob(rule, f'redefinition of an attribute group by restriction: {what}', f.loc(red[k].ast) if k in red else f.loc(), k in red,
+               '' if k in red else f'no parse_error with this path condition in the redefinition branch (the derivation branch has it){": " + eg if eg else ""}',
+               key=f'attributes._parse|redefine|{k}')
     if 'type-exempt' in found:
         x, exempt = found['type-exempt']
         ctx.ob(rule, 'restriction of attributes: the type test exempts nothing but a prohibited redeclaration', f.loc(x.ast), not exempt,
